@@ -181,7 +181,19 @@ func lossScenario(t *testing.T, out *vt.Writer, backend string, mk lockMaker, ex
 	if err != nil {
 		t.Fatal(err)
 	}
-	actx, err := la.Lock(context.Background())
+	if run%4 >= 2 {
+		// every other pair of runs: the holder's lock OBJECT has been through a lock / unlock cycle before
+		// (alternately with Lock and TryLock); what it is told about must be the current acquisition
+		if _, err := la.Lock(context.Background()); err == nil {
+			_ = la.Unlock(context.Background())
+		}
+	}
+	var actx context.Context
+	if run%8 >= 4 {
+		actx, err = la.TryLock(context.Background())
+	} else {
+		actx, err = la.Lock(context.Background())
+	}
 	if err != nil {
 		out.Emit(map[string]any{"ev": "LockErr", "c": 1, "what": "lock", "err": err.Error()})
 		return
